@@ -4,4 +4,5 @@ From AIT Require Import Base.Vio C20.Model C20.Spec.
 Extraction "model.ml" vio_kit trie_history spec_outs spec_store hist_okb out_eqb filter_spec compatibleb
   spec_step op_okb ft_new ft_step ft_op_okb reconstruct_okb
   ft_reconstruct fkeys pf_eqb fm_new fm_emplace fm_filterF fm_filterF_const fm_filterFO fm_filterFO_const
-  fm_filterPf fm_filterPf_const fm_size fm_spec pf_okb.
+  fm_filterPf fm_filterPf_const fm_size fm_spec pf_okb
+  trie_new trie_step trie_copy ft_copy fm_copy fm_of_trie fm_ids fm_items.
